@@ -636,6 +636,33 @@ def check_single_removal(ctx, db):
               '; '.join(bad) or 'expected two removal sites, found %d' % len(incs))
 
 
+def check_key_widths(ctx, db):
+    """Keys are compared at the width they are stored with (R-WIDTH): no comparison in the property-list and table code
+    narrows a non-constant integer by an explicit cast (a 64-bit attribute compared as 16 bits answers for every key that agrees
+    modulo 65536). File-local helpers are followed. Controls: controls/widths.cpp."""
+    from .. import widths
+    fns = [f for f in db.functions if f.body is not None and (f.relfile() in ('src/property.cpp', 'src/style.cpp') or f.relfile() in ('include/gdstk/map.hpp', 'include/gdstk/set.hpp', 'include/gdstk/tagmap.hpp'))]
+    n = 0
+    seen = set()
+    for f, _w in db.with_helpers(fns):
+        if (f.file, f.line) in seen:
+            continue
+        seen.add((f.file, f.line))
+        n += 1
+        for cmp_, cast, ws, wt in widths.narrowed_comparisons(f):
+            ctx.violation('R-WIDTH', '%s/narrowed-comparison@%s' % (f.qn.replace('gdstk::', ''), cmp_.loc()), cmp_.loc(),
+                          'a %d-bit value is cast to %d bits inside the comparison `%s`: keys that agree modulo 2^%d are taken for each other' % (ws, wt, norm_text(cmp_), wt))
+    ctx.ok('R-WIDTH', 'property-and-table-code/no-narrowed-comparisons', '', 'no comparison narrows a stored key (%d functions incl. helpers)' % n)
+    ctx.require('R-WIDTH functions scanned', n, 30)
+    cdb = load_controls()
+    ctx.control('ctl_key_narrowed_bad (R-WIDTH fires)', bool(widths.narrowed_comparisons(cdb.fn('controls::ctl_key_narrowed_bad'))))
+    ctx.control('ctl_key_narrowed_ok (R-WIDTH silent)', not widths.narrowed_comparisons(cdb.fn('controls::ctl_key_narrowed_ok')))
+
+
+def norm_text(n):
+    return re.sub(r'<[A-Za-z]+:(?!:)[^>]*>', '', n.text()).replace('gdstk::', '')[:100]
+
+
 def check_update_xor_insert(ctx, db):
     """set_gds_property either overwrites the value of an existing attribute or links a new entry - never both:
     no CFG path leads from the in-place update to the statement that links the new list head."""
@@ -669,13 +696,14 @@ def check_update_xor_insert(ctx, db):
 def run(ctx):
     db = ctx.db
     nullable = flow.nullable_functions(db)
-    check_property_lists(ctx, db, nullable)
-    check_tables(ctx, db)
-    check_payload(ctx, db)
-    check_array(ctx, db)
-    check_heap(ctx, db)
-    check_single_removal(ctx, db)
-    check_update_xor_insert(ctx, db)
+    ctx.attempt(check_property_lists, ctx, db, nullable)
+    ctx.attempt(check_tables, ctx, db)
+    ctx.attempt(check_payload, ctx, db)
+    ctx.attempt(check_array, ctx, db)
+    ctx.attempt(check_heap, ctx, db)
+    ctx.attempt(check_single_removal, ctx, db)
+    ctx.attempt(check_update_xor_insert, ctx, db)
+    ctx.attempt(check_key_widths, ctx, db)
     # positive control for the contradiction rule
     cdb = load_controls()
     for name, expect in (('ctl_list_head_removal', True), ('ctl_list_head_removal_ok', False)):
